@@ -30,6 +30,7 @@ PROPERTIES = {
     ),
     'C03': dict(
         units=['u_store'],
+        kani=[dict(harness='k_temp_id', function='resolve_temp_id (src/store.rs)', file='src/store.rs', bound='every valid UTF-8 string of at most 4 bytes')],
         level_text="Deductive proof (Verus/Z3) of the generic store layer, once for every store type: StoreFor::resolve_id returns exactly the handle the id map holds for that string, or the number of a temporary id of the right kind that fits the handle type; get/has/get_mut succeed exactly for live items; remove tombstones the item, drops its id from the id map and preserves the id-map representation invariant (every id points at the live item carrying it and vice versa); insert (C14) either fails without changing the store or appends exactly one item. No lookup panics, whatever the string.",
         level_note="Trusted: HashMap<String,H> modelled as a map (VxStrMap), str::starts_with, Option::map(to_string), resolve_temp_id's contract (bounded Kani stand-in), callback contracts of StoreCallbacks (proved for the dataset implementations in u_dataset, assumed for AnnotationStore), 64-bit usize. Compaction (reindex) is covered separately.",
         design_ref='DESIGN.md §7.3',
@@ -91,6 +92,16 @@ PROPERTIES = {
         design_ref='DESIGN.md §7.12',
         explanation="ordering and failure-atomicity clauses on the real annotate body over assumed component contracts",
         assumptions=["AnnotationStore::selector is atomic on failure (proved for its text arm's components only)"],
+    ),
+    'C19': dict(
+        units=['u_off', 'u_store', 'u_sub'],
+        kani=[dict(harness='k_temp_id', function='resolve_temp_id (src/store.rs)', file='src/store.rs', bound='every valid UTF-8 string of at most 4 bytes'),
+              dict(harness='k_cursor_str', function='impl TryFrom<&str> for Cursor (src/types.rs)', file='src/types.rs', bound='every valid UTF-8 string of at most 3 bytes')],
+        level_text="Narrow claim: deductive proof (Verus/Z3) of panic freedom WITHOUT any precondition on the value for the functions that a deserialised cursor, offset, temporary id or handle reaches: Text::beginaligned_cursor and TextResource::textselection_by_offset for every Cursor value (including EndAligned(isize::MIN) and positive end-aligned cursors), Cursor::try_from(isize), StoreFor::resolve_id / get / has for every string and every handle (Handle::new truncation is covered by a round-trip check), and the range-compression loop of subselectors for every order of handles. The loaders themselves (serde_json / csv / minicbor visitors), allocation driven by numbers in the input, and termination are NOT decided. Two string leaves have bounded Kani stand-ins in the thorough tier only (labelled bounded, not counted as proved).",
+        level_note="Trusted: as for C03/C04/C01 units. Known by reading, outside reach and not claimed: AnnotationsVisitor / DataVisitor call resize_with(handle) with a handle taken from a temporary id in the input (memory exhaustion for '!A4294967296'); the sort comparator of subselectors panics on two DataKeySelectors.",
+        design_ref='DESIGN.md §7.13',
+        explanation="precondition-free safety obligations of the functions reached from deserialised values",
+        assumptions=["everything that happens inside serde / csv / minicbor and the visitor impls is outside this check"],
     ),
 }
 
